@@ -13,8 +13,8 @@ What mirrors what:
                       theorem `designEntry_eq_eventSum`; the op `design` ties it to the code)
 * `designOk`        — the slice `fir_matrix[k:k+L]` must have L rows, else numpy raises ValueError
 * `firSolve`        — `algorithms.fir` = pinv(XᵀX)Xᵀy, modelled for full rank as the solution of the
-                      normal equations: own Gauss–Jordan elimination, answer accepted only after the
-                      exact residual check `normalEqHolds` (so every returned answer is a solution)
+                      normal equations by own Gaussian elimination `elimSolve` (exact; proved sound and,
+                      for a non-singular system, total: `elimSolve_sound`, `elimSolve_total`)
 * `padFn`, `rollFn` — zero padding by offset / len_et in `__init__`, `np.roll` in `FIR`
 * `etaRow`, `semSqRow`, `positions` — `eta` / `ets` for an event-coded series
 * `etaRowZ`, `eventIndex`           — `eta` / `ets` for an `Events` object (no padding, python
@@ -73,41 +73,40 @@ def gram (n : Nat) (X : Nat → Nat → Int) (a b : Nat) : Int := sumRangeI n fu
 def xty (n : Nat) (X : Nat → Nat → Int) (y : Nat → Rat) (a : Nat) : Rat :=
   sumRange n fun r => (X r a : Rat) * y r
 
-/-- Gauss–Jordan elimination on the augmented p×(p+1) matrix (first non-zero pivot; exact) -/
-def gaussSolve (p : Nat) (A0 : Array (Array Rat)) : Option (Array Rat) := Id.run do
-  let mut A := A0
-  for c in [0:p] do
-    let mut piv := p
-    for r in [c:p] do
-      if piv == p && (A[r]!)[c]! != 0 then piv := r
-    if piv == p then return none
-    let rowP := A[piv]!
-    let rowC := A[c]!
-    A := (A.set! piv rowC).set! c rowP
-    let d := rowP[c]!
-    let rowN := rowP.map (· / d)
-    A := A.set! c rowN
-    for r in [0:p] do
-      if r != c then
-        let f := (A[r]!)[c]!
-        if f != 0 then
-          A := A.set! r (Array.zipWith (fun a b => a - f * b) (A[r]!) rowN)
-  return some (A.map fun row => row[p]!)
+/-- first row whose leading entry is non-zero, and the remaining rows (order kept) -/
+def pickPivot : List (List Rat) → Option (List Rat × List (List Rat))
+  | [] => none
+  | r :: rs =>
+    if r.getD 0 0 ≠ 0 then some (r, rs) else
+    match pickPivot rs with
+    | none => none
+    | some (q, rest) => some (q, r :: rest)
 
-def augmented (n p : Nat) (X : Nat → Nat → Int) (y : Nat → Rat) : Array (Array Rat) :=
-  (Array.range p).map fun a =>
-    ((Array.range p).map fun b => ((gram n X a b : Int) : Rat)).push (xty n X y a)
+/-- eliminate the leading unknown of `row` with the pivot row; keeps entries 1..m -/
+def reduceRow (m : Nat) (piv row : List Rat) : List Rat :=
+  (List.range m).map fun c => row.getD (c + 1) 0 - (row.getD 0 0 / piv.getD 0 0) * piv.getD (c + 1) 0
 
-/-- exact residual check of the normal equations XᵀX x = Xᵀy -/
-def normalEqHolds (n p : Nat) (X : Nat → Nat → Int) (y : Nat → Rat) (x : List Rat) : Bool :=
-  (List.range p).all fun a =>
-    decide (sumRange p (fun b => ((gram n X a b : Int) : Rat) * x.getD b 0) = xty n X y a)
+/-- Gaussian elimination with back substitution on p augmented rows `[a₀ … a_{p-1}, rhs]` (exact;
+    `none` iff some column has no pivot, i.e. the matrix is singular — see `elimSolve_total`) -/
+def elimSolve : Nat → List (List Rat) → Option (List Rat)
+  | 0, _ => some []
+  | p + 1, rows =>
+    match pickPivot rows with
+    | none => none
+    | some (piv, rest) =>
+      match elimSolve p (rest.map (reduceRow (p + 1) piv)) with
+      | none => none
+      | some xs =>
+        some ((piv.getD (p + 1) 0 - sumRange p (fun c => piv.getD (c + 1) 0 * xs.getD c 0)) / piv.getD 0 0 :: xs)
 
-/-- `algorithms.fir` for a full-rank design: `none` = singular / elimination failed -/
+/-- augmented rows of the normal equations XᵀX x = Xᵀy -/
+def normalRows (n p : Nat) (X : Nat → Nat → Int) (y : Nat → Rat) : List (List Rat) :=
+  (List.range p).map fun a =>
+    ((List.range p).map fun b => ((gram n X a b : Int) : Rat)) ++ [xty n X y a]
+
+/-- `algorithms.fir` for a full-rank design: `none` = singular -/
 def firSolve (n p : Nat) (X : Nat → Nat → Int) (y : Nat → Rat) : Option (List Rat) :=
-  match gaussSolve p (augmented n p X y) with
-  | none => none
-  | some x => if normalEqHolds n p X y x.toList then some x.toList else none
+  elimSolve p (normalRows n p X y)
 
 /-! ## padding, rolling, planted signals -/
 
@@ -301,6 +300,26 @@ def runDesign (cur : Bool) (L : Nat) (evl : List Int) : String :=
     designEntry cur (getI ev) types L r c
   "ok " ++ toString n ++ " " ++ toString p ++ " " ++ showIntList entries
 
+/-- the same matrix through the per-event accumulation `designEventSum` (op `designsum`) -/
+def runDesignSum (cur : Bool) (L : Nat) (evl : List Int) : String :=
+  let ev := evl.toArray
+  let n := ev.size
+  let types := eventTypes evl
+  if !designOk n (getI ev) L then "err ValueError" else
+  let p := types.length * L
+  let entries := (List.range n).flatMap fun r => (List.range p).map fun c =>
+    designEventSum cur n (getI ev) types L r c
+  "ok " ++ toString n ++ " " ++ toString p ++ " " ++ showIntList entries
+
+/-- the specification signal `planted` itself (op `planted`), compared with the harness's own planting -/
+def runPlanted (off L : Nat) (evl codes : List Int) (resp : List Rat) : String :=
+  let ev := evl.toArray
+  let respFn : Int → Nat → Rat := fun t j =>
+    match codes.findIdx? (· == t) with
+    | some b => resp.getD (b * L + j) 0
+    | none => 0
+  "ok " ++ joinList ((List.range ev.size).map fun p => showRatAsFloat (planted ev.size (getI ev) respFn off L p))
+
 /-- both sign variants when they can differ (negative codes): `current || intended` -/
 def both (neg : Bool) (f : Bool → String) : String :=
   let a := f true
@@ -323,6 +342,14 @@ def handle (args : List String) : String :=
     match L.toNat?, parseIntList? ev with
     | some L, some evl => both (evl.any (· < 0)) (fun cur => runDesign cur L evl)
     | _, _ => "bad-args"
+  | ["designsum", L, ev] =>
+    match L.toNat?, parseIntList? ev with
+    | some L, some evl => both (evl.any (· < 0)) (fun cur => runDesignSum cur L evl)
+    | _, _ => "bad-args"
+  | ["planted", off, L, ev, codes, resp] =>
+    match off.toNat?, L.toNat?, parseIntList? ev, parseIntList? codes, parseFloatList? resp with
+    | some off, some L, some evl, some codes, some resp => runPlanted off L evl codes (resp.map F64.ofFloat)
+    | _, _, _, _, _ => "bad-args"
   | ["types", ev] =>
     match parseIntList? ev with
     | some evl => "ok " ++ showIntList (eventTypes evl)
